@@ -38,6 +38,7 @@ def gen_cases(tier, seed):
     for i in range(n // 20):
         out.append({"seed": env.seed_for(seed, ID, tier, "mutated", i), "mode": "mutated"})
     out.extend(preempt.gen_descs(tier, seed, ID))  # "the same for every ... timing": deterministic single-preemption enumeration
+    out.extend(preempt.gen_descs2(tier, seed, ID, pairs_quick=60))  # and (k1, k2) pairs of two preemptions
     return out
 
 
@@ -211,6 +212,10 @@ def run_case(desc):
     if desc.get("mode") == "preempt1":
         r_ = preempt.enumerate_case(desc, preempt_oracle)
         r_.setdefault("sets", {})["features_exercised"] = ["preempt1"]
+        return r_
+    if desc.get("mode") == "preempt2":
+        r_ = preempt.enumerate_pairs(desc, preempt_oracle)
+        r_.setdefault("sets", {})["features_exercised"] = ["preempt2"]
         return r_
     seed = desc["seed"]
     rng = random.Random(seed)
